@@ -198,8 +198,9 @@ def gen_signals(rng, n_in=None, n_out=None, n_bidir=None, wide=False, odd_names=
         names_out = ["n", "i1", "v1", "Q", "w1"] if rng.random() < 0.7 else ["ite", "random", "signExt", "bits", "n"]
         rng.shuffle(names_out)
     if odd_names and rng.random() < 0.5:
-        names_in = ["A-1", "~B", "ÄÖÜßäöü", "é", "IN[0]"]
-        names_out = ["Q", "R'", "αβγδεζηθ", "T.x", "信号输入输出汉字"]
+        names_in = ["Größe", "~B", "ÄÖÜßäöü", "é", "IN[0]"]
+        names_out = ["信号输入输出汉字", "R'", "αβγδεζηθ", "T.x", "Q"]
+        names_bi = ["Büs", "I/O"]
     sigs = []
 
     def bits():
